@@ -948,7 +948,7 @@ fn kind_ef_large(rng: &mut Rng, out: &mut Out, id: &str, tier: &str) {
     // a 1024-block of the high bits spanning >= 65536 positions needs >= ~33k elements and one huge gap
     // (ones), or > 64512 duplicates in one bucket (zeros)
     out.case(id);
-    let dup = rng.chance(1, 3);
+    let dup = tier == "thorough" && rng.chance(1, 4);
     let n = if dup { rng.range(134_000, 140_000) } else { rng.range(33_000, 40_000) } as usize;
     let u = if dup { 2 * n + rng.below(1000) as usize } else { 16 * n + rng.below(1000) as usize };
     let mut xs: Vec<usize> = Vec::with_capacity(n);
